@@ -58,6 +58,51 @@ prop('C08',
      level_note='Trusted: Kani/CBMC/cadical; the opcode table spec/opcodes.tsv; the syntactic 1:1 execute_op! dispatch in fuel-vm is outside this check.')
 
 
+TOY_NOTE = ('SHA-256 abstracted at the repository\'s wrapper functions by a loop-free stand-in (TOY) shared by implementation and '
+            'reference; a pass compares what is hashed, in what order, under which prefix, and transfers to SHA-256 by parametricity '
+            '(argument, not solver verdict); counterexamples are replayed natively with real SHA-256')
+
+prop('C11',
+     builds=[dict(crate='ext', filters=['c11_'])],
+     default=dict(mem=4, timeout={'quick': 300, 'thorough': 900}, cbmc_extra=['--max-field-sensitivity-array-size', os.environ.get('VERIF_FS', '512')]),
+     overrides=[(r'h_(pprpl1p|ppl2rp|prprp|pprpp|ppl2r|l0p|pl0|prpl1|ppl1|pl1p|ppl1p)::', dict(tier='rotate')),
+                # load followed by push: CBMC cannot bound the peak vector rebuilt by load(), explores the
+                # hashbrown scratch map in root_node and does not finish (900 s) -> outside the claim
+                (r'h_(pl1p|ppl1p|pprpl1p)::c11_(root|prove_j0|prove_j1)$', dict(skip=True))],
+     rotate_pick=24,
+     min_harnesses={'quick': 60, 'thorough': 100},
+     functions_encoded=['fuel_merkle::binary::MerkleTree::{new,push,reset,load,root,leaves_count,prove}',
+                        'fuel_merkle::binary::root_calculator::MerkleRootCalculator::{push_with_callback,clear,new_with_stack}',
+                        'fuel_merkle::common::position::Position::*', 'fuel_merkle::common::path_iterator::*',
+                        'fuel_merkle::binary::merkle_tree::{root_position,peak_positions}'],
+     bounds=['history templates: 20 concrete words over {push, reset, load(k)} with at most 2 live leaves at any time and at most 6 operations',
+             'leaf data: 2 symbolic bytes each; final proof index j: any u64',
+             'storage: array-backed table with 8 slots (ArrStorage), infallible'],
+     assumptions=[TOY_NOTE],
+     out_of_claim=['histories that ever hold 3 or more live leaves',
+                   'root/proof contents (not count/refusal) after a load() that is followed by a push: templates P L(1) P, P P L(1) P, P P R P L(1) P (no verdict in 900 s)',
+                   'storage errors', 'in_memory::MerkleTree front end (StorageMap is a hash map, K5) - it forwards to the same reset'],
+     level_text='Bounded model checking of concrete short history templates with symbolic leaf data and a symbolic proof index against a '
+                'freshly built tree and the RFC 6962 tree hash. Right level for the reset/reload bookkeeping (counts, peaks, bounds checks), '
+                'which is data-independent; weak for tree shapes above 2 leaves, stated as outside the claim.',
+     level_note='Trusted: Kani/CBMC/cadical; TOY hash parametricity; bound of 2 live leaves.')
+
+VM_STUBS_NOTE = ('fuel_vm::constraints::reg_key::split_registers replaced by a split_at_mut model (Kani 0.68 ICE on the slice pattern, K1); '
+                 'Result::{expect,unwrap} replaced by non-formatting models (K2)')
+
+prop('C21',
+     builds=[dict(crate='vm', filters=['c21_'])],
+     default=dict(mem=6, timeout={'quick': 600, 'thorough': 1800}),
+     min_harnesses={'quick': 10, 'thorough': 20},
+     functions_encoded=['<fuel_asm::op::X as Execute>::execute for each covered opcode (fuel-vm/src/interpreter/executors/opcodes_impl.rs)',
+                        'Interpreter::gas_charge / gas::gas_charge', 'interpreter::alu::{alu_capture_overflow, alu_boolean_overflow, alu_error, alu_set, alu_clear}',
+                        'interpreter::internal::{inc_pc, set_flag}', 'constraints::reg_key::WriteRegKey::new'],
+     bounds=['all 64 register ids for destination and sources, all 64-bit register values, all flag values, all immediates, symbolic gas schedule'],
+     assumptions=[VM_STUBS_NOTE, 'pre-state: $zero=0, $one=1, $cgas <= $ggas, $pc < VM_MAX_RAM'],
+     out_of_claim=['decoder + dispatch (C08)'],
+     level_text='One-step bounded model checking of the real per-opcode handlers from an arbitrary register state against an independently written wide-arithmetic specification.',
+     level_note='Trusted: Kani/CBMC/cadical, split_registers model (checked natively).')
+
 # ---------------------------------------------------------------------------------------
 def opts_for(pid, h, tier):
     spec = PROPS[pid]
